@@ -22,6 +22,7 @@ import (
 	"github.com/logrange/logrange/pkg/model"
 	"github.com/logrange/logrange/pkg/model/tag"
 	"github.com/logrange/logrange/pkg/utils"
+	"github.com/logrange/logrange/pkg/utils/verifhook"
 	"github.com/logrange/range/pkg/records"
 	"github.com/logrange/range/pkg/records/journal"
 	"github.com/pkg/errors"
@@ -319,6 +320,7 @@ func (cur *crsr) ApplyState(state State) error {
 func (cur *crsr) WaitNewData(ctx context.Context) error {
 	cur.it.Release()
 	ctx2, cancel := context.WithCancel(ctx)
+	verifhook.At("cursor.wait.beforeSubscribe")
 	for _, it := range cur.jDescs {
 		go func(jrnl journal.Journal, pos journal.Pos) {
 			jrnl.Chunks().WaitForNewData(ctx2, pos)
